@@ -64,6 +64,14 @@ func (c16) Plan(tier string, seed int64) []core.Scenario {
 		out = append(out, core.Sc("late").WithN("fk", i%3).WithN("k", 1+i%3))
 		out = append(out, core.Sc("blocked").WithN("fk", i%3).WithN("others", i%4))
 	}
+	nn := 6
+	if tier == "thorough" {
+		nn = 80
+	}
+	for i := 0; i < nn; i++ {
+		out = append(out, core.Sc("notify-nesting").WithN("variant", i%2).WithN("k", 1+i%3))
+		out = append(out, core.Sc("notify-gone").WithN("fk", i%3).WithN("handlers", 2+i%6))
+	}
 	for i := range out {
 		out[i].Seed = seed*122949829 + int64(i)
 		out[i] = out[i].WithN("noise", i%3)
@@ -82,6 +90,10 @@ func (p c16) Run(sc core.Scenario) core.Result {
 		p.revfault(sc, r)
 	case "late", "blocked":
 		p.gone(sc, r)
+	case "notify-nesting":
+		p.notifyNesting(sc, r)
+	case "notify-gone":
+		p.notifyGone(sc, r)
 	}
 	return r.Result()
 }
@@ -272,6 +284,101 @@ func (c16) revfault(sc core.Scenario, r *core.R) {
 	r.Obs("reverse_faults", 1)
 	r.Sig(core.Log.Signature())
 	r.Sample(map[string]interface{}{"fault": kind, "frame": []string{"forward request", "reverse request", "reverse response", "forward response"}[frame], "pos": sc.I("pos"), "server_handler_note": env.Svc.Get(t).Note})
+}
+
+// notifyNesting: a notification whose handler calls in the opposite direction (forward notification ->
+// reverse call; reverse notification -> forward call). The nested call must be answered.
+func (c16) notifyNesting(sc core.Scenario, r *core.R) {
+	env := NewEnv(EnvOpt{Rev: true})
+	defer env.Shutdown()
+	pol := noisePolicy(sc)
+	defer pol.Install()()
+	c, err := env.NewClient(ClientOpt{RevIdent: "A"})
+	if err != nil {
+		r.Inconclusive("client: %v", err)
+		return
+	}
+	bg := context.Background()
+	t := Tok("n")
+	if sc.I("variant") == 0 {
+		k := sc.I("k")
+		if err := c.RevN(bg, t, k); err != nil {
+			r.Violate("notify-failed", "forward notification failed: %v", err)
+		}
+		env.Svc.WaitEntered(t, core.Grace)
+		if !core.WaitCh(env.Svc.ExitedCh(t), core.Grace) {
+			r.Violate("reverse-call-blocks", "the handler of a forward notification made a reverse call and is still waiting for its answer after %v (note=%q); events: %s", core.Grace, env.Svc.Get(t).Note, core.Log.Tail(30))
+		} else {
+			for i := 0; i < k; i++ {
+				want := fmt.Sprintf("[%s.r%d -> %q err=<nil>]", t, i, fmt.Sprintf("A/%s.r%d", t, i))
+				if !strings.Contains(env.Svc.Get(t).Note, want) {
+					r.Violate("reverse-affinity", "reverse call %d made from a notification handler: expected %s in %q", i, want, env.Svc.Get(t).Note)
+				}
+			}
+		}
+	} else {
+		o := Go(t, func() (string, error) { return c.RevNoteBack(bg, t) })
+		if !o.Wait(core.Grace) || o.Err != nil {
+			r.Violate("reverse-call-blocks", "forward call that sends a reverse notification did not return: %v", o.Err)
+		}
+		c.RevSvc.WaitEntered(t, core.Grace)
+		if !core.WaitCh(c.RevSvc.ExitedCh(t), core.Grace) {
+			r.Violate("reverse-call-blocks", "the client-side handler of a reverse notification made a forward call and is still waiting for its answer after %v; events: %s", core.Grace, core.Log.Tail(30))
+		} else if want := fmt.Sprintf("forward -> %q err=<nil>", svc.Reply(t+".f")); c.RevSvc.Get(t).Note != want {
+			r.Violate("reverse-affinity", "forward call made from a reverse-notification handler: got %q, expected %q", c.RevSvc.Get(t).Note, want)
+		}
+	}
+	// the connection still serves ordinary calls in both directions
+	p := Tok("p")
+	o := Go(p, func() (string, error) { return c.Rev(bg, p, 1, 0) })
+	if !o.Wait(core.Grace) || o.Err != nil || o.Val != "A/"+p+".r0" {
+		r.Violate("client-broken", "after a nested notification an ordinary forward+reverse call got (%q, %v)", o.Val, o.Err)
+	}
+	r.Key(fmt.Sprintf("notify-nesting v%d k=%d", sc.I("variant"), sc.I("k")), true)
+	r.Obs("reverse_calls", int64(sc.I("k")))
+	r.Sig(core.Log.Signature())
+	r.Sample(map[string]interface{}{"scenario": []string{"forward notification -> reverse call", "reverse notification -> forward call"}[sc.I("variant")]})
+}
+
+// notifyGone: server handlers keep sending reverse notifications while the client goes away; each of
+// them must get an error (or finish), not block.
+func (c16) notifyGone(sc core.Scenario, r *core.R) {
+	kind := []string{wsproxy.FIN, wsproxy.RST, "closer"}[sc.I("fk")]
+	env := NewEnv(EnvOpt{Rev: true})
+	defer env.Shutdown()
+	pol := noisePolicy(sc)
+	defer pol.Install()()
+	c, err := env.NewClient(ClientOpt{RevIdent: "A", Opts: []jsonrpc.Option{jsonrpc.WithNoReconnect()}})
+	if err != nil {
+		r.Inconclusive("client: %v", err)
+		return
+	}
+	bg := context.Background()
+	var toks []string
+	for i := 0; i < sc.I("handlers"); i++ {
+		t := Tok("s")
+		toks = append(toks, t)
+		go c.RevSpam(bg, t, i%3)
+	}
+	for _, t := range toks {
+		env.Svc.WaitEntered(t, core.Grace)
+	}
+	time.Sleep(3 * time.Millisecond)
+	if kind == "closer" {
+		go c.Close()
+	} else {
+		env.Px.KillAll(kind)
+	}
+	for _, t := range toks {
+		if !core.WaitCh(env.Svc.ExitedCh(t), core.Grace) {
+			r.Violate("reverse-call-blocks", "a server handler sending reverse notifications is still blocked %v after its client went away (%s); note=%q; events: %s", core.Grace, kind, env.Svc.Get(t).Note, core.Log.Tail(30))
+			break
+		}
+	}
+	r.Key(fmt.Sprintf("notify-gone %s n=%d", kind, len(toks)), true)
+	r.Obs("reverse_after_gone", int64(len(toks)))
+	r.Sig(core.Log.Signature())
+	r.Sample(map[string]interface{}{"scenario": "reverse notifications while the client goes away", "end": kind, "handlers": len(toks), "note": env.Svc.Get(toks[0]).Note})
 }
 
 // gone: reverse calls issued after / blocked across the end of the client's connection.
